@@ -7,7 +7,7 @@ from layout_common import gen_tree, print_copybook, assign_names, tree_sx, schem
 
 GEN = ["JsonTypeParams", "EstructParams", "Cp037", "ConversionParams"]
 RULE = ("field: EVERY (13 USAGE spellings x unsigned/signed x (m,n) with 1<=m+n<=18 x {digit runs written out, 9(m), 9(n), both}) single-field copybook through "
-        "schema_iter (type, contentEncoding, conversion, minLength, maxLength of the field) and, on a sample, the same field through "
+        "schema_iter (type, contentEncoding, conversion, minLength, maxLength of the field), the same field through "
         "JSONSchemaMakerExtendedVocabulary and type(EBCDIC().nav(...).name(f).value()) on a record holding the mainframe encoding of a random value "
         "(the judge checks the picture text IS the printed picture and the bytes ARE the specification's encoding); text X(k)/A(k). "
         "tree: random record descriptions of C01's generator (+ FILLER redefiners) -> emitted schema compared with the model's build, "
@@ -50,18 +50,17 @@ def inputs(ctx):
     rng = ctx.rng
     quick = ctx.tier == "quick"
     # ---- every spelling x sign x (m, n) x way of writing the digit runs, standard generator
-    ctx.exhaustive.append("field_13_spellings_x_sign_x_mn<=18_x_repeat_styles")
+    ctx.exhaustive.append("field_13_spellings_x_sign_x_mn<=18_x_repeat_styles_both_generators")
     for u in range(13):
         for signed in (False, True):
             for m, n in digit_pairs():
                 for ri, rf in ((False, False), (True, False), (False, True), (True, True)):
                     if (ri and m == 0) or (rf and n == 0):
                         continue                      # the same text as a style already listed
-                    p = 0.5 if quick else 1.0
-                    yield "field", dict(k=1, gen=0, u=u, pic=[0, signed, m, n, ri, rf], nav=rng.random() < p, seed=rng.randrange(1 << 30),
-                                        no_usage=(u == DISPLAY and rng.random() < 0.3))
-                    if rng.random() < (0.15 if quick else 1.0):
-                        yield "field-ext", dict(k=1, gen=1, u=u, pic=[0, signed, m, n, ri, rf], nav=False, seed=0, no_usage=False)
+                    for _ in range(1 if quick else 4):
+                        yield "field", dict(k=1, gen=0, u=u, pic=[0, signed, m, n, ri, rf], nav=True, seed=rng.randrange(1 << 30),
+                                            no_usage=(u == DISPLAY and rng.random() < 0.3))
+                    yield "field-ext", dict(k=1, gen=1, u=u, pic=[0, signed, m, n, ri, rf], nav=False, seed=0, no_usage=False)
     # ---- text pictures
     ks = list(range(1, 41)) + [64, 100, 255, 256, 1000]
     for k in ks:
@@ -247,6 +246,17 @@ def resolved_sites(schema, rev):
     return out
 
 
+def clean(x):
+    """wire forms hold integers only: anything else the implementation put into the document becomes -1"""
+    if isinstance(x, bool):
+        return int(x)
+    if isinstance(x, int):
+        return x
+    if isinstance(x, (list, tuple)):
+        return [clean(i) for i in x]
+    return -1
+
+
 def observe_tree(c):
     from lib import exn_code
     tree, fillers = make_tree(c)
@@ -258,7 +268,7 @@ def observe_tree(c):
     from jsonschema import Draft202012Validator
     try:
         (js,) = list(schema_iter(io.StringIO(cb)))
-        schema_obs = [0, schema_sx(js, rev, EBCDIC())]
+        schema_obs = [0, clean(schema_sx(js, rev, EBCDIC()))]
     except BaseException as ex:
         if isinstance(ex, (KeyboardInterrupt, SystemExit, MemoryError)):
             raise
@@ -266,7 +276,7 @@ def observe_tree(c):
     try:
         (dde,) = list(structure(dde_sentences(reference_format(io.StringIO(cb)))))
         xjs = JSONSchemaMakerExtendedVocabulary().jsonschema(dde)
-        ext_obs = [0, schema_sx(xjs, rev, EBCDIC())]
+        ext_obs = [0, clean(schema_sx(xjs, rev, EBCDIC()))]
     except BaseException as ex:
         if isinstance(ex, (KeyboardInterrupt, SystemExit, MemoryError)):
             raise
